@@ -161,7 +161,7 @@ class LogicConv2d(_PersistentWiring, nn.Module):
                 [torch.nn.functional.one_hot(w.argmax(-1), 16).to(torch.float32)
                  for w in self.tree_weights[level]], dim=0
             )
-        if self.forward_sampling in ("gumbel_soft", "gumbel_hard") and self.temperature <= 0:
+        if self.forward_sampling in ("gumbel_soft", "gumbel_hard") and not self.temperature > 0:
             raise ValueError("Temperature must be positive")
         weighting_func = {
             "soft": lambda w: soft_raw(w, tau=self.temperature),
